@@ -3,7 +3,7 @@ use crate::common::*;
 use rand::prelude::*;
 use rand_chacha::ChaCha8Rng;
 use serde_json::{json, Value};
-use text_utils::data::loading::{GenerationStrategy, MultiTrainDataGenerator, TrainDataGenerator};
+use text_utils::data::loading::{train_data_generator_from_jsonl, GenerationStrategy, MultiTrainDataGenerator, TrainDataGenerator};
 use text_utils::data::TrainData;
 
 fn sources(lens: &[usize]) -> Vec<TrainDataGenerator> {
@@ -17,6 +17,23 @@ fn sources(lens: &[usize]) -> Vec<TrainDataGenerator> {
         .collect()
 }
 
+/// the same sources as jsonl files read by the library's own reader; `eol` selects the line
+/// ending style: 0 = LF, 1 = CRLF, 2 = LF without a trailing newline at the end of the file
+fn file_sources(lens: &[usize], eol: u64, dir: &std::path::Path) -> anyhow::Result<Vec<TrainDataGenerator>> {
+    let mut out = vec![];
+    for (s, &l) in lens.iter().enumerate() {
+        let p = dir.join(format!("src{s}.jsonl"));
+        let sep = if eol == 1 { "\r\n" } else { "\n" };
+        let mut text: String = (0..l).map(|k| format!("{{\"input\": \"{} {}\"}}{sep}", s + 1, k)).collect();
+        if eol == 2 && text.ends_with('\n') {
+            text.pop();
+        }
+        std::fs::write(&p, text)?;
+        out.push(train_data_generator_from_jsonl(&p)?);
+    }
+    Ok(out)
+}
+
 fn strategy(s: &str) -> GenerationStrategy {
     match s {
         "sequential" => GenerationStrategy::Sequential,
@@ -26,44 +43,64 @@ fn strategy(s: &str) -> GenerationStrategy {
 }
 
 /// One complete iteration: returns (items as [tag, src_from_payload, pos], ended, status)
-fn run(lens: &[usize], strat: &str, seed: u64) -> (Vec<Value>, bool, String) {
+fn run(lens: &[usize], strat: &str, seed: u64, files: Option<u64>) -> (Vec<Value>, bool, String, i64) {
     let total: usize = lens.iter().sum();
-    let gen = match guard(|| MultiTrainDataGenerator::new(sources(lens), strategy(strat), Some(seed))) {
+    let dir = std::env::temp_dir().join(format!("tuverif-mg-{}-{:?}", std::process::id(), std::thread::current().id()));
+    let srcs = match files {
+        None => sources(lens),
+        Some(eol) => {
+            let _ = std::fs::create_dir_all(&dir);
+            match file_sources(lens, eol, &dir) {
+                Ok(s) => s,
+                Err(e) => return (vec![], false, format!("err:files:{e}"), -1),
+            }
+        }
+    };
+    let r = run_with(srcs, total, lens.len(), strat, seed);
+    let _ = std::fs::remove_dir_all(&dir);
+    r
+}
+
+fn run_with(srcs: Vec<TrainDataGenerator>, total: usize, nsrc: usize, strat: &str, seed: u64) -> (Vec<Value>, bool, String, i64) {
+    let lens_len = nsrc;
+    let gen = match guard(|| MultiTrainDataGenerator::new(srcs, strategy(strat), Some(seed))) {
         Ok(Ok(g)) => g,
-        Ok(Err(e)) => return (vec![], false, format!("err:new:{e}")),
-        Err(m) => return (vec![], false, format!("panic:new:{m}")),
+        Ok(Err(e)) => return (vec![], false, format!("err:new:{e}"), -1),
+        Err(m) => return (vec![], false, format!("panic:new:{m}"), -1),
     };
     let mut gen = gen;
+    let reported = gen.len() as i64;
     let mut out = vec![];
     let mut ended = false;
     // a conforming generator ends after `total` items; allow it to overrun a little so
     // that duplicates are seen, but never loop unboundedly here
-    for _ in 0..(total + lens.len() + 3) {
+    for _ in 0..(total + lens_len + 3) {
         match guard(|| gen.next()) {
             Ok(Some((Ok(d), tag))) => {
                 let parts: Vec<usize> = d.verif_input().split(' ').map(|x| x.parse().unwrap_or(9999)).collect();
                 out.push(json!([tag + 1, parts[0], parts[1]]));
             }
-            Ok(Some((Err(e), _))) => return (out, false, format!("err:item:{e}")),
+            Ok(Some((Err(e), _))) => return (out, false, format!("err:item:{e}"), reported),
             Ok(None) => {
                 ended = true;
                 break;
             }
-            Err(m) => return (out, false, format!("panic:next:{m}")),
+            Err(m) => return (out, false, format!("panic:next:{m}"), reported),
         }
     }
-    (out, ended, "ok".to_string())
+    (out, ended, "ok".to_string(), reported)
 }
 
 pub fn exec(case: &Value) -> Vec<Value> {
     let lens: Vec<usize> = case["lens"].as_array().unwrap().iter().map(|x| x.as_u64().unwrap() as usize).collect();
     let strat = get_str(case, "strategy");
     let seed = case.get("seed").and_then(|x| x.as_u64()).unwrap_or(0);
-    let (out, ended, st) = run(&lens, strat, seed);
+    let files = case.get("files").and_then(|x| x.as_u64());
+    let (out, ended, st, reported) = run(&lens, strat, seed, files);
     // same seed again: the result must be reproducible
-    let (out2, _, _) = run(&lens, strat, seed);
+    let (out2, _, _, _) = run(&lens, strat, seed, files);
     vec![json!({"st": st, "lens": lens, "strategy": strat, "seed": seed, "out": out, "out2": out2,
-                "ended": ended, "case": case})]
+                "ended": ended, "reported_len": reported, "files": files.map(|x| x as i64).unwrap_or(-1), "case": case})]
 }
 
 pub fn gen(seed: u64, n: usize) -> Vec<Value> {
@@ -74,7 +111,11 @@ pub fn gen(seed: u64, n: usize) -> Vec<Value> {
             let k = rng.random_range(1..=6);
             let lo = if strat == "weighted" { 1 } else { 0 };
             let lens: Vec<usize> = (0..k).map(|_| rng.random_range(lo..=9)).collect();
-            json!({"lens": lens, "strategy": strat, "seed": rng.random::<u32>()})
+            if rng.random_bool(0.3) {
+                json!({"lens": lens, "strategy": strat, "seed": rng.random::<u32>(), "files": rng.random_range(0..3u64)})
+            } else {
+                json!({"lens": lens, "strategy": strat, "seed": rng.random::<u32>()})
+            }
         })
         .collect()
 }
